@@ -20,17 +20,20 @@ pub struct HookSpec {
     pub entry_yield: bool,
     pub steps: Vec<Step>,
     pub out: Outcome,
+    /// not under the controller: polled whenever tokio polls the enclosing task (wake-ups are real)
+    #[serde(default)]
+    pub free: bool,
 }
 
 impl HookSpec {
     pub fn ok() -> Self {
-        HookSpec { entry_yield: true, steps: vec![], out: Outcome::Ok }
+        HookSpec { entry_yield: true, steps: vec![], out: Outcome::Ok, free: false }
     }
     pub fn quick_ok() -> Self {
-        HookSpec { entry_yield: false, steps: vec![], out: Outcome::Ok }
+        HookSpec { entry_yield: false, steps: vec![], out: Outcome::Ok, free: false }
     }
     pub fn with(steps: Vec<Step>, out: Outcome) -> Self {
-        HookSpec { entry_yield: true, steps, out }
+        HookSpec { entry_yield: true, steps, out, free: false }
     }
 }
 
@@ -160,6 +163,9 @@ pub enum Step {
     Park,
     Busy(u32),
     Mark(u32),
+    /// wait for / raise one of the harness-global signals (tokio Notify: a raised signal is remembered)
+    WaitSig(u8),
+    Signal(u8),
     Send { kind: SendKind, slot: u8, msg: MsgSpec },
     Stop(u8),
     Kill(u8),
@@ -188,11 +194,14 @@ pub struct Program {
     pub steps: Vec<Step>,
     /// implicit scheduling point before every step but the first (unless preceded by Fuse)
     pub auto_yield: bool,
+    /// not under the controller: an ordinary tokio task
+    #[serde(default)]
+    pub free: bool,
 }
 
 impl Program {
     pub fn new(slots: Vec<(u8, usize)>, steps: Vec<Step>) -> Self {
-        Program { slots, steps, auto_yield: true }
+        Program { slots, steps, auto_yield: true, free: false }
     }
 }
 
